@@ -75,6 +75,7 @@ class Cluster:
         self.deliveries = collections.Counter()   # (token, sid) -> count
         self.member_ops = []       # (clock, kind, sid|None, ns, room, idx)
         self.callbacks = {}        # token -> expected (host, args) / fired
+        self.relay_ids = {}
         self.chan.publish_hook = self.on_publish
         self.cur_op = None
         self.disc_handlers = collections.Counter()
@@ -102,6 +103,27 @@ class Cluster:
 
     def on_publish(self, idx, raw, publisher):
         self.msg_of[idx] = self.cur_op
+        # the token that relays an acknowledgement back to the issuing host
+        # is (room, namespace, id): an id is never issued twice for a room by
+        # one host (a late acknowledgement of the earlier emit would complete
+        # the later one)
+        try:
+            import pickle
+            msg = pickle.loads(raw)
+        except Exception:
+            return
+        if isinstance(msg, dict) and msg.get('method') == 'emit' and \
+                msg.get('callback'):
+            room, ns, cid = msg['callback']
+            key = (msg.get('host_id'), room, ns)
+            seen = self.relay_ids.setdefault(key, set())
+            self.ctx.count('relay_callback_ids_checked')
+            if cid in seen and not self.failed:
+                self.fail('the relay token (%r, %r, %r) of an emit with '
+                          'callback was issued a second time by the same '
+                          'host: a late acknowledgement of the earlier emit '
+                          'would complete the later one' % (room, ns, cid))
+            seen.add(cid)
 
     def tick(self):
         self.clock += 1
